@@ -33,193 +33,302 @@ TRUSTED = ["rustc nightly front end", "driver/src/main.rs", "sa/e1.py", "sa/e4.p
 NF = "network::Network::forward"
 
 
-def loop_block(ctx):
+def loop_block_e6(ctx):
+    """R17.1 / R17.2 decided on the E6 effect summary of Network::forward (layout, names, loop idioms and helper extraction do not matter).
+    For every way through one layer visit i:  a loop is run iff self.loopbacks has an entry for i; its triple (into, iterations, inskips) is
+    that entry; after the layer's own records are appended the range into..=i is re-run `iterations` times by _forward(current, into, i + 1),
+    `current` being the previous pass's last output (first: the layer's own output), reshaped to layers[into]'s inputs when they differ from
+    layers[i]'s outputs, plus activated[into] iff inskips; each pass records (pre, post, max); the seed entry of the post record is dropped;
+    then for every j in into..=i (position idx = j - into) and every pass the configured accumulation combines preactivated[j] with
+    pres[pass][idx] and activated[j + 1] with posts[pass][idx] (Mean: over all passes at once; the max-pool indices at maxpools[j] likewise)."""
+    from .. import e6
     c = ctx.crate
     fn = ctx.fn(NF)
-    loops = [x for x in walk(fn["body"], into_closures=False) if x.get("k") == "for" and any(cal == "network::Network::_forward" for _, cal in calls(x["body"]))]
-    lp = loops[0]
-    ih = pat_binds(lp["pat"])[0][1]
-    blk = [s for s in top_stmts_of(lp["body"]) if s.get("k") == "if" and any(x.get("k") == "mcall" and (hm(x["callee"], "contains_key") or hm(x["callee"], "get")) and "loopbacks" in pretty(x["recv"]) for x in walk(s["c"]))]
-    if len(blk) != 1:
-        raise Unestablished("expected one `if self.loopbacks.contains_key(..)` / `if let Some(..) = self.loopbacks.get(..)` block", c.loc(fn, lp))
-    return fn, lp, ih, blk[0]
+    E = e6.Exec(c, fn)
+    live = [p for p in E.run_fn() if p.exit is None or p.exit[0] == "return"]
+    if len(live) != 1:
+        raise Unestablished("Network::forward: expected one non-panicking path, found %d" % len(live), c.loc(fn))
+    walks = [e for e in live[0].eff if e[0] == "loop" and E.loop_summaries[e[1]].get("kind") == "for"
+             and e6.find_terms(tuple(q.eff for q in E.loop_summaries[e[1]]["paths"]), lambda t: t[0] == "call" and t[1] == "network::Network::_forward")]
+    if len(walks) != 1:
+        raise Unestablished("expected one layer loop calling _forward in Network::forward, found %d" % len(walks), c.loc(fn))
+    lid = walks[0][1]
+    L = E.loop_summaries[lid]
+    where = c.loc(fn, L["node"])
+    I = ("elem", L["iter"], lid)
+    SELF = ("p", "self")
+    LB = ("field", SELF, "loopbacks")
+    LAYERS = ("field", SELF, "layers")
+    ACCF = ("field", SELF, "loopaccumulation")
+    val = live[0].val if live[0].exit is None else live[0].exit[1]
+    if not (isinstance(val, tuple) and val and val[0] == "tup" and len(val[1]) == 4):
+        raise Unestablished("Network::forward does not return its four records", c.loc(fn))
+    pre_n, act_n, max_n, _fb = [e6.root_name(x) for x in val[1]]
+    PRIM = {"Add": "add_inplace", "Subtract": "sub_inplace", "Multiply": "mul_inplace", "Mean": "mean_inplace"}
+    LIN = e6.lin
+    res = {}
 
+    def note(key, ok, detail=""):
+        res.setdefault(key, []).append((bool(ok), detail))
 
-def r1(ctx):
-    c = ctx.crate
-    fn, lp, ih, blk = loop_block(ctx)
-    ck = [x for x in walk(blk["c"]) if x.get("k") == "mcall" and x["name"] in ("contains_key", "get") and "loopbacks" in pretty(x["recv"])][0]
-    ctx.check("R17.1", "guard-key-is-layer-index", e4.local_hid(ck["args"][0]) == ih, "loop-guard-key", c.loc(fn, blk), "contains_key(&i)")
-    # must come after the layer's own forward in the loop body
-    st_outer = top_stmts_of(lp["body"])
-    fw = [i for i, s in enumerate(st_outer) if any(x.get("k") == "mcall" and x["callee"] == "network::Network::_forward" for x in walk(s)) and s is not blk]
-    ctx.check("R17.1", "after-own-forward", bool(fw) and st_outer.index(blk) > fw[0], "loop-block-position", c.loc(fn, blk), "the loop block follows the layer's own forward pass")
-    st = top_stmts_of(blk["th"])
-    tl = [s for s in st if s.get("k") == "let" and s["pat"].get("k") == "tuple"]
-    ok = False
-    into_h = it_h = sk_h = None
-    cnd_ = strip(blk["c"])
-    if cnd_.get("k") == "letx" and ck["name"] == "get" and e4.arm_variant({"pat": cnd_["pat"]})[0].endswith("Some") and len(pat_binds(cnd_["pat"])) == 3 \
-            and strip(cnd_["init"]) is ck:
-        # `if let Some(&(into, iterations, inskips)) = self.loopbacks.get(&i)`: the stored triple, bound by the guard itself
-        into_h, it_h, sk_h = (h for (_, h) in pat_binds(cnd_["pat"]))
-        ok = True
-    elif tl:
-        init = strip(tl[0]["init"])
-        pb = pat_binds(tl[0]["pat"])
-        ok = init.get("k") == "index" and "self.loopbacks" in pretty(init["b"]) and e4.local_hid(init["i"]) == ih and len(pb) == 3
-        if ok:
-            into_h, it_h, sk_h = (h for (_, h) in pb)
-    ctx.check("R17.1", "triple-from-loopbacks[i]", ok, "loop-parameters", c.loc(fn, blk), "(into, iterations, inskips) = self.loopbacks[&i]")
-    if not ok:
-        return None
-    lets = {}
-    for s in st:
-        if s.get("k") == "let" and s["pat"].get("k") == "bind":
-            lets[s["pat"]["name"]] = s
-    fp = lets.get("fposts")
-    okf = fp is not None and "activated.last().unwrap().clone()" in pretty(fp["init"]) and pretty(fp["init"]).count("box_assume_init_into_vec_unsafe") == 2
-    ctx.check("R17.1", "starts-from-own-output", okf, "fposts-initial", c.loc(fn, fp["init"]) if fp else c.loc(fn, blk), "fposts = vec![vec![activated.last().clone()]]")
-    iters = [s for s in st if s.get("k") == "for" and any(x.get("k") == "mcall" and x["callee"] == "network::Network::_forward" for x in walk(s["body"]))]
-    if len(iters) != 1:
-        raise Unestablished("expected one iteration loop calling _forward", c.loc(fn, blk))
-    il = iters[0]
-    it = strip(il["iter"])
-    rng = [strip(b) for a, b in it["fs"]] if it.get("k") == "struct" and it["path"] == "std::ops::Range" else []
-    ctx.check("R17.1", "iterations-times", len(rng) == 2 and e4.lit_value(rng[0]) == "0" and e4.local_hid(rng[1]) == it_h, "iteration-range:" + short(pretty(it), 50), c.loc(fn, il), "for _ in 0..iterations",
-              "the loop body is re-run over %s; a connection with k iterations must re-run exactly k times" % pretty(it))
-    ist = top_stmts_of(il["body"])
-    ilets = {s["pat"]["name"]: s for s in ist if s.get("k") == "let" and s["pat"].get("k") == "bind"}
-    cur = ilets.get("current")
-    okc = cur is not None and pretty(strip(cur["init"])) == "fposts.last().unwrap().last().unwrap().clone()"
-    ctx.check("R17.1", "current-is-previous-output", okc, "current-source:" + (short(pretty(cur["init"]), 60) if cur else "?"), c.loc(fn, il), "current = previous iteration's last output")
-    ch = cur["pat"]["hid"] if cur else None
-    inp = ilets.get("inputs")
-    oki = inp is not None and strip(inp["init"]).get("k") == "mcall" and strip(inp["init"])["callee"] == "network::Layer::inputs" and "self.layers[into]" == pretty(strip(strip(inp["init"])["recv"])) \
-        and e4.local_hid(strip(strip(inp["init"])["recv"])["i"]) == into_h
-    rs = [s for s in ist if s.get("k") == "if" and any(x.get("k") == "mcall" and x["callee"] == T + "reshape" for x in walk(s["th"]))]
-    okr = False
-    if len(rs) == 1 and inp is not None:
-        cn = strip(rs[0]["c"])
-        okr = (cn.get("k") == "bin" and cn["op"] == "Ne" and e4.local_hid(cn["l"]) == inp["pat"]["hid"] and pretty(strip(cn["r"])) == "self.layers[i].outputs()"
-               and any(x_.get("k") == "assign" and cpretty(x_, let_table(il["body"])) in ("current = current.reshape(inputs.clone())",
-                                                                                            "current = current.reshape(%s.clone())" % cpretty(inp["init"], let_table(il["body"])))
-                       for x_ in walk(rs[0]["th"])))
-    ctx.check("R17.1", "reshape-to-entry-shape", oki and okr, "reshape-on-mismatch", c.loc(fn, il), "if layers[into].inputs() != layers[i].outputs() { current = current.reshape(inputs) }")
-    sk = [s for s in ist if s.get("k") == "if" and e4.local_hid(s["c"]) == sk_h]
-    oks = False
-    got = "?"
-    if len(sk) == 1:
-        adds = [x for x in walk(sk[0]["th"]) if x.get("k") == "mcall" and x["callee"] in INPLACE]
-        if len(adds) == 1:
-            a = strip(adds[0]["args"][0])
-            got = pretty(adds[0])
-            oks = (adds[0]["callee"] == T + "add_inplace" and e4.local_hid(adds[0]["recv"]) == ch and a.get("k") == "index" and pretty(strip(a["b"])) == "activated" and e4.local_hid(a["i"]) == into_h
-                   and sk[0]["el"] is None)
-    ctx.check("R17.1", "inskip-adds-entry-input", oks, "inskip:" + short(got, 60), c.loc(fn, sk[0]) if sk else c.loc(fn, il), "if inskips { current.add_inplace(&activated[into]) }",
-              "with input skips the re-run receives `%s`; it must add the original input of layer `into` (activated[into])" % got)
-    fwc = [x for x in walk(il["body"]) if x.get("k") == "mcall" and x["callee"] == "network::Network::_forward"]
-    okw = False
-    if len(fwc) == 1:
-        a = fwc[0]["args"]
-        N = e1.Norm(c, {ih: Rat.atom("i")})
-        okw = e4.local_hid(a[0]) == ch and e4.local_hid(a[1]) == into_h and N.norm(a[2]) == Rat.atom("i") + 1
-    ctx.check("R17.1", "rerun-range", okw, "rerun-call:" + (short(pretty(fwc[0]), 60) if fwc else "?"), c.loc(fn, il), "_forward(&current, into, i + 1)")
-    order = [pretty(strip(s)) for s in ist if s.get("k") == "mcall" and s["name"] == "push"]
-    ctx.check("R17.1", "records-each-iteration", order == ["fpres.push(fpre)", "fposts.push(fpost)", "fmaxs.push(fmax)"], "iteration-recording:" + ",".join(order)[:80], c.loc(fn, il), "push fpre, fpost, fmax")
-    # statement order within an iteration: reshape, inskip, forward
-    pos = {id(s): k for k, s in enumerate(ist)}
-    seq_ok = bool(rs) and bool(sk) and pos[id(rs[0])] < pos[id(sk[0])] < [k for k, s in enumerate(ist) if any(y in fwc for y in walk(s))][0]
-    ctx.check("R17.1", "iteration-order", seq_ok, "iteration-statement-order", c.loc(fn, il), "reshape, then input skip, then re-run")
-    return fn, blk, st, il, into_h, it_h, ih
+    def paths_of(e):
+        return [e6.Path({}, pc=x[0], eff=x[1], exit=x[2], val=x[3]) for x in e[3]]
 
-
-def r2(ctx, fn, blk, st, il, into_h, it_h, ih):
-    c = ctx.crate
-    rm = [k for k, s in enumerate(st) if pretty(strip(s)) == "fposts.remove(0)"]
-    acc = [s for s in st if s.get("k") == "for" and acc_matches(s)]
-    if len(acc) != 1:
-        raise Unestablished("expected one accumulation loop after the iterations", c.loc(fn, blk))
-    al = acc[0]
-    ctx.check("R17.2", "placeholder-removed", len(rm) == 1 and st.index(il) < rm[0] < st.index(al), "fposts-placeholder", c.loc(fn, blk), "fposts.remove(0) between the iterations and the accumulation")
-    it = strip(al["iter"])
-    pb = pat_binds(al["pat"])
-    okd = False
-    if it.get("k") == "mcall" and it["name"] == "enumerate" and len(pb) == 2:
-        r = strip(it["recv"])
-        if r.get("k") == "struct" and r["path"] == "std::ops::Range":
-            fs = dict((a, b) for a, b in r["fs"])
-            N = e1.Norm(c, {ih: Rat.atom("i")})
-            okd = e4.local_hid(fs["start"]) == into_h and N.norm(fs["end"]) == Rat.atom("i") + 1
-    ctx.check("R17.2", "covers-into..=i", okd, "accumulation-range:" + short(pretty(it), 60), c.loc(fn, al), "for (idx, j) in (into..i + 1).enumerate()")
-    if not okd:
-        return
-    idxh, jh = pb[0][1], pb[1][1]
-    ms = acc_matches(al)
-    m = ms[0]
-    scr = strip(m["scrut"])
-    ctx.check("R17.2", "dispatch-on-loopaccumulation", scr.get("k") == "field" and scr["f"] == "loopaccumulation", "dispatch-field:" + pretty(scr), c.loc(fn, m), "match self.loopaccumulation")
-
-    def ow(body):
-        asg = [npretty(x) for x in walk(body) if x.get("k") == "assign"]
-        return any(a.startswith("preactivated[j] = fpres[iteration][idx]") for a in asg) and any(a.startswith("activated[(1 + j)] = fposts[iteration][idx]") for a in asg)
-    check_acc_dispatch(ctx, "R17.2", fn, m, "loop-dispatch", overwrite_ok=ow)
-    N = e1.Norm(c, {jh: Rat.atom("j"), idxh: Rat.atom("idx")})
-    for arm in m["arms"]:
-        vp, _ = e4.arm_variant(arm)
-        v = vp.split("::")[-1]
-        if v in ("_",):
+    def rooted(t, name):
+        return e6.root_name(t) == name
+    n_loop = n_plain = 0
+    for q in L["paths"]:
+        if q.exit is not None and q.exit[0] == "panic":
             continue
-        where = c.loc(fn, arm["body"])
-        if v != "Mean":
-            fl = [x for x in walk(arm["body"]) if x.get("k") == "for"]
-            okl = False
-            if fl:
-                r = strip(fl[0]["iter"])
-                okl = r.get("k") == "struct" and e4.lit_value(dict((a, b) for a, b in r["fs"])["start"]) == "0" and e4.local_hid(dict((a, b) for a, b in r["fs"])["end"]) == it_h
-                ith = pat_binds(fl[0]["pat"])[0][1]
-            ctx.check("R17.2", "every-iteration:" + v, okl, "iteration-walk:" + v, where, "for iteration in 0..iterations")
-            if not okl:
+        has, T3, key_ok = None, None, True
+        for (t, pol) in q.pc:
+            ck = e6.is_call(t, "contains_key", 2)
+            if ck and ck[0] == LB:
+                has, key_ok, T3 = pol, LIN(ck[1]) == LIN(I), ("idx", LB, I)
+            if isinstance(t, tuple) and t[0] == "is" and t[2] in ("Option::Some", "Option::None"):
+                g = e6.is_call(t[1], "get", 2)
+                if g and g[0] == LB:
+                    has = pol if t[2] == "Option::Some" else (not pol)
+                    key_ok, T3 = LIN(g[1]) == LIN(I), ("payload", t[1], "Option::Some", 0)
+        if has is None:
+            if e6.contains(tuple(q.eff), LB):
+                note("guard", False, "a visit reads self.loopbacks without testing for an entry")
+            has = False
+        reruns = e6.find_terms(tuple(q.eff), lambda t: t[0] == "call" and t[1] == "network::Network::_forward" and len(t[2]) == 4 and LIN(t[2][2]) != LIN(I))
+        if not has:
+            n_plain += 1
+            note("guard", not reruns, "a range is re-run without a registered loop")
+            continue
+        n_loop += 1
+        note("guard", key_ok, "the entry looked up is not the one of the layer index")
+        into, iters, insk = e6.mk_proj(T3, 0), e6.mk_proj(T3, 1), e6.mk_proj(T3, 2)
+        uses = set()
+        for t in e6.find_terms(tuple(q.eff), lambda t: t[0] == "proj" and e6.strip_upd(t[1]) in (T3, ("un", "Deref", T3))):
+            uses.add(t[2])
+        note("triple", uses == {0, 1, 2}, "components of the stored triple used: %s" % sorted(uses))
+        effs = list(q.eff)
+        own = [k for k, e in enumerate(effs) if e[0] == "mut" and e[1].rsplit("::", 1)[-1] in ("append", "extend", "push") and e[2] == ("local", act_n)]
+        def reruns_range(e):
+            for x in e[3]:
+                for f in x[1]:
+                    if f[0] in ("push", "mut") and e6.find_terms(f[2] if f[0] == "push" else f[3], lambda t: t[0] == "proj" and e6.is_call(t[1], "_forward", 4) is not None
+                                                                  and LIN(t[1][2][2]) != LIN(I)):
+                        return True
+            return False
+        itl = [k for k, e in enumerate(effs) if e[0] == "loop" and reruns_range(e)]
+        if len(itl) != 1:
+            note("iterations", False, "%d loops re-run the range" % len(itl))
+            continue
+        ki = itl[0]
+        IT = effs[ki]
+        note("after-own", bool(own) and own[0] < ki, "the re-run starts before the layer's own records are appended")
+        rng = e6.range_of(IT[2])
+        note("iterations", rng is not None and rng[0] == ("lit", "0") and LIN(rng[1]) == LIN(iters), "the range is re-run over %s" % e6.show(IT[2], 3)[:80])
+        fposts_n = fpres_n = fmaxs_n = None
+        for x in paths_of(IT):
+            if x.exit is not None and x.exit[0] == "panic":
                 continue
-            N2 = e1.Norm(c, {jh: Rat.atom("j"), idxh: Rat.atom("idx"), ith: Rat.atom("it")})
-            pairs = []
-            for x in walk(arm["body"]):
-                tgt = src = None
-                if x.get("k") == "mcall" and x["callee"] in INPLACE:
-                    tgt, src = strip(x["recv"]), strip(x["args"][0])
-                elif x.get("k") == "assign" and strip(x["l"]).get("k") == "index":
-                    tgt, src = strip(x["l"]), strip(x["r"])
-                    if src.get("k") == "mcall":
-                        src = strip(src["recv"])
-                if tgt is None or tgt.get("k") != "index" or src.get("k") != "index":
-                    continue
-                try:
-                    pairs.append((pretty(strip(tgt["b"])), str(N2.norm(tgt["i"])), pretty(strip(strip(src["b"])["b"])) if strip(src["b"]).get("k") == "index" else "?",
-                                  str(N2.norm(strip(src["b"])["i"])) if strip(src["b"]).get("k") == "index" else "?", str(N2.norm(src["i"]))))
-                except (ValueError, KeyError):
-                    pairs.append(("?",) * 5)
-            fm = []
-            for x in walk(arm["body"]):
-                xx = strip(x)
-                if xx.get("k") == "index" and strip(xx["b"]).get("k") == "index" and pretty(strip(strip(xx["b"])["b"])) == "fmaxs":
-                    try:
-                        fm.append((str(N2.norm(strip(xx["b"])["i"])), str(N2.norm(xx["i"]))))
-                    except ValueError:
-                        fm.append(("?", "?"))
-            gm = [str(N2.norm(x["args"][0])) for x in walk(arm["body"]) if x.get("k") == "mcall" and x["name"] == "get_mut" and pretty(strip(x["recv"])) == "maxpools"]
-            fm = sorted(set(fm))
-            ctx.check("R17.2", "maxpool-indices:" + v, fm == [("it", "idx")] and gm == ["j"], "maxpool-index-bookkeeping:%s:%s:%s" % (v, fm, gm), where,
-                      "maxpools[j] combined with fmaxs[iteration][idx]",
-                      "the %s arm updates the max-pool indices of %s with fmaxs%s; layer j of the range is entry idx of each iteration's list" % (v, gm, fm))
-            want = [("preactivated", "j", "fpres", "it", "idx"), ("activated", "1 + j", "fposts", "it", "idx")]
-            ctx.check("R17.2", "operands:" + v, sorted(pairs) == sorted(want), "accumulation-operands:%s:%s" % (v, pairs)[:120], where,
-                      "preactivated[j] <- fpres[it][idx]; activated[j+1] <- fposts[it][idx]",
-                      "the %s arm combines %s; expected %s" % (v, pairs, want))
+            if x.exit is not None:
+                note("records", False, "a pass leaves the loop early")
+                continue
+            fw = [e[2][1] for e in x.eff if e[0] == "push" and isinstance(e[2], tuple) and e[2][0] == "proj" and e6.is_call(e[2][1], "_forward", 4) is not None]
+            if not fw or any(f != fw[0] for f in fw):
+                note("rerun", False, "a pass does not run _forward exactly once")
+                continue
+            FW = fw[0]
+            note("rerun", FW[2][0] == SELF and LIN(FW[2][2]) == LIN(into) and LIN(FW[2][3]) == LIN(e6.mk_bin("Add", I, ("lit", "1"))),
+                 "_forward(.., %s, %s)" % (e6.show(FW[2][2], 2)[:40], e6.show(FW[2][3], 2)[:40]))
+            pushes = [e for e in x.eff if e[0] == "push"]
+            byproj = {}
+            for e in pushes:
+                if isinstance(e[2], tuple) and e[2][0] == "proj" and e[2][1] == FW and e[1][0] == "local":
+                    byproj[e[2][2]] = e[1][1]
+            okrec = len(pushes) == 3 and set(byproj) == {0, 1, 2} and [e[2][2] for e in pushes if isinstance(e[2], tuple) and e[2][0] == "proj"] == [0, 1, 2]
+            note("records", okrec, "a pass records %s" % [e6.show(e[2], 1)[:30] for e in pushes])
+            if not okrec:
+                continue
+            fpres_n, fposts_n, fmaxs_n = byproj[0], byproj[1], byproj[2]
+            CUR = FW[2][1]
+            C0 = ("call", "std::option::Option::<T>::unwrap", (("call", "core::slice::<impl [T]>::last", (("call", "std::option::Option::<T>::unwrap",
+                  (("call", "core::slice::<impl [T]>::last", (("loopin", fposts_n, IT[1]),)),)),)),))
+            INS = ("call", "network::Layer::inputs", (("idx", LAYERS, into),))
+            OUTS = ("call", "network::Layer::outputs", (("idx", LAYERS, I),))
+            same = None
+            sk = None
+            for (t, pol) in x.pc:
+                if isinstance(t, tuple) and t[0] == "bin" and t[1] == "Eq" and {e6.strip_upd(t[2]), e6.strip_upd(t[3])} == {INS, OUTS}:
+                    same = pol
+                if e6.strip_upd(t) == insk or e6.strip_upd(t) == ("un", "Deref", insk):
+                    sk = pol
+            RS = ("call", "tensor::Tensor::reshape", (C0, INS))
+            bases = [C0, RS] if same is True else [RS]
+            base = CUR
+            added = None
+            if isinstance(CUR, tuple) and CUR and CUR[0] == "upd" and CUR[2].startswith("tensor::Tensor::add_inplace@") and len(CUR[3]) == 1:
+                base, added = CUR[1], CUR[3][0]
+            note("current", e6.contains(CUR, C0), "a pass starts from %s" % e6.show(CUR, 3)[:100])
+            note("reshape", base in bases, "entry shape handling: current = %s (shapes equal: %s)" % (e6.show(base, 3)[:100], same))
+            if sk is True:
+                oks = (added is not None and isinstance(added, tuple) and added[0] == "idx" and rooted(added[1], act_n) and LIN(e6.strip_upd(added[2])) == LIN(into))
+                note("inskip", oks, "with input skips the pass receives %s" % e6.show(CUR, 3)[:120])
+            elif sk is False:
+                note("inskip", added is None and not isinstance(base, tuple) or (added is None), "without input skips the pass receives %s" % e6.show(CUR, 3)[:120])
+            else:
+                note("inskip", False, "a pass does not consult the stored inskips flag")
+        if fposts_n is None:
+            continue
+        seed = e6.entry_value(q, ("loopin", fposts_n, IT[1]))
+        oks = False
+        if isinstance(seed, tuple) and seed[0] == "vec" and len(seed[1]) == 1 and isinstance(seed[1][0], tuple) and seed[1][0][0] == "vec" and len(seed[1][0][1]) == 1:
+            u = e6.is_call(seed[1][0][1][0], "unwrap", 1) or e6.is_call(seed[1][0][1][0], "expect")
+            l_ = e6.is_call(u[0], "last", 1) if u else None
+            oks = bool(l_) and rooted(l_[0], act_n) and l_[0] != ("loopin", act_n, lid)
+        note("seed", oks, "the post record starts as %s" % e6.show(seed, 3)[:100])
+        rest = effs[ki + 1:]
+        accl = [k for k, e in enumerate(rest) if e[0] == "loop"]
+        rm = [k for k, e in enumerate(rest) if e[0] == "mut" and e[1].endswith("::remove") and e[2] == ("local", fposts_n) and e[3] == (("lit", "0"),)]
+        if len(accl) != 1:
+            note("range", False, "%d loops follow the passes" % len(accl))
+            continue
+        note("placeholder", len(rm) == 1 and rm[0] < accl[0], "fposts.remove(0) between the passes and the accumulation: %d" % len(rm))
+        ACC = rest[accl[0]]
+        a_it = ACC[2]
+        a_el = ("elem", a_it, ACC[1])
+        en = e6.is_call(a_it, "enumerate", 1)
+        rng2 = e6.range_of(en[0] if en else a_it)
+        okrng = rng2 is not None and LIN(rng2[0]) == LIN(into) and LIN(rng2[1]) == LIN(e6.mk_bin("Add", I, ("lit", "1")))
+        note("range", okrng, "accumulation walks %s" % e6.show(a_it, 3)[:80])
+        if en:
+            J, IDX = LIN(("proj", a_el, 1)), LIN(("proj", a_el, 0))
         else:
-            t = npretty(arm["body"])
-            ok = ("let fpre = fpres.iter().map(|x| &x[idx]).collect()" in t and "let fpost = fposts.iter().map(|x| &x[idx]).collect()" in t
-                  and "preactivated[j].mean_inplace(&fpre)" in t and "activated[(1 + j)].mean_inplace(&fpost)" in t)
-            ctx.check("R17.2", "operands:Mean", ok, "mean-operands", where, "preactivated[j].mean_inplace(all fpres[..][idx]); activated[j+1].mean_inplace(all fposts[..][idx])")
+            J, IDX = LIN(a_el), LIN(e6.mk_bin("Sub", a_el, into))
+        J1 = LIN(e6.mk_bin("Add", ("proj", a_el, 1) if en else a_el, ("lit", "1")))
+
+        def operand(t, rec_n, pass_el, need_removed=False):
+            """t == REC[pass][idx]"""
+            t0 = t
+            if isinstance(t0, tuple) and t0[0] == "payload" and t0[2] == "Option::Some":
+                t0 = t0[1]
+            if not (isinstance(t0, tuple) and t0[0] == "idx" and isinstance(t0[1], tuple) and t0[1][0] == "idx"):
+                return False
+            if LIN(e6.strip_upd(t0[2])) != IDX or not rooted(t0[1][1], rec_n):
+                return False
+            if pass_el is not None and e6.strip_upd(t0[1][2]) != pass_el:
+                return False
+            if need_removed and not e6.find_terms(t0[1][1], lambda u_: u_[0] == "upd" and "::remove@" in u_[2]):
+                return False
+            return True
+        seen_v = set()
+        for y in paths_of(ACC):
+            if y.exit is not None and y.exit[0] == "panic":
+                continue
+            V = None
+            for (t, pol) in y.pc:
+                if pol and isinstance(t, tuple) and t[0] == "is" and t[1] == ACCF:
+                    V = t[2].split("::")[-1]
+            if V is None:
+                note("dispatch", False, "an accumulation step does not consult self.loopaccumulation")
+                continue
+            seen_v.add(V)
+            note("dispatch", True)
+            if V == "Mean":
+                muts = [e for e in y.eff if e[0] == "mut" and e[1].startswith("tensor::Tensor::") and e[1].rsplit("::", 1)[-1] in set(PRIM.values()) | {"div_scalar_inplace"}]
+                good = len(muts) == 2 and all(e[1].endswith("::mean_inplace") for e in muts)
+                if good:
+                    for e, (tn, jj, rec_n, rmv) in zip(muts, ((pre_n, J, fpres_n, False), (act_n, J1, fposts_n, True))):
+                        pl = e[2]
+                        okp = isinstance(pl, tuple) and pl[0] == "idx" and pl[1] == ("local", tn) and LIN(e6.strip_upd(pl[2])) == jj
+                        a = e[3][0] if e[3] else None
+                        cm = e6.is_call(a, "collect", 1)
+                        mp = e6.is_call(cm[0], "map", 2) if cm else None
+                        okm = False
+                        if mp and rooted(mp[0], rec_n) and isinstance(mp[1], tuple) and mp[1][0] == "closure":
+                            if rmv and not e6.find_terms(mp[0], lambda u_: u_[0] == "upd" and "::remove@" in u_[2]):
+                                okm = False
+                            else:
+                                cl_eff = [z for z in y.eff if z[0] == "loop" and z[1] == "cl%s" % mp[1][1]]
+                                if cl_eff and len(cl_eff[0][3]) == 1 and not cl_eff[0][3][0][0] and cl_eff[0][3][0][2] is None:
+                                    v_ = cl_eff[0][3][0][3]
+                                    elc = ("elem", e6.strip_upd(mp[0]), "cl%s" % mp[1][1])
+                                    okm = isinstance(v_, tuple) and v_[0] == "idx" and e6.strip_upd(v_[1]) == elc and LIN(e6.strip_upd(v_[2])) == IDX
+                        else:
+                            es = e6.elementwise_sequence(E, a) if a is not None else None
+                            okm = False
+                        good = good and okp and okm
+                note("operands:Mean", good, "Mean step: %s" % [e6.show(e[2], 2)[:40] + " <- " + e6.show(e[3][0], 2)[:60] for e in muts])
+                continue
+            inner = [e for e in y.eff if e[0] == "loop" and e6.range_of(e[2]) is not None]
+            other = [e for e in y.eff if e[0] != "loop"]
+            rngp = e6.range_of(inner[0][2]) if len(inner) == 1 else None
+            okev = len(inner) == 1 and not other and rngp[0] == ("lit", "0") and LIN(rngp[1]) == LIN(iters)
+            note("every-iteration:" + V, okev, "%s: %d pass loops, other effects %d" % (V, len(inner), len(other)))
+            if not okev:
+                continue
+            p_el = ("elem", inner[0][2], inner[0][1])
+            for z in paths_of(inner[0]):
+                if z.exit is not None and z.exit[0] == "panic":
+                    continue
+                if z.exit is not None:
+                    note("every-iteration:" + V, False, "%s: a pass is left early" % V)
+                    continue
+                if V == "Overwrite":
+                    ups = [e for e in z.eff if e[0] == "set" and isinstance(e[1], tuple) and e[1][0] == "idx" and e[1][1] in (("local", pre_n), ("local", act_n))]
+                    prims = [e for e in z.eff if e[0] == "mut" and e[1].rsplit("::", 1)[-1] in PRIM.values()]
+                    pairs = [(e[1], e[2]) for e in ups]
+                    okp = not prims
+                else:
+                    ups = [e for e in z.eff if e[0] == "mut" and e[1].startswith("tensor::Tensor::") and e[1].rsplit("::", 1)[-1] in set(PRIM.values()) | {"div_scalar_inplace"}]
+                    okp = all(e[1].rsplit("::", 1)[-1] == PRIM[V] for e in ups)
+                    pairs = [(e[2], e[3][0] if e[3] else None) for e in ups]
+                good = okp and len(pairs) == 2
+                if good:
+                    (p0, a0), (p1, a1) = pairs
+                    good = (isinstance(p0, tuple) and p0[0] == "idx" and p0[1] == ("local", pre_n) and LIN(e6.strip_upd(p0[2])) == J and operand(a0, fpres_n, p_el)
+                            and isinstance(p1, tuple) and p1[0] == "idx" and p1[1] == ("local", act_n) and LIN(e6.strip_upd(p1[2])) == J1 and operand(a1, fposts_n, p_el, True))
+                note("operands:" + V, good, "%s step: %s" % (V, [e6.show(a_, 2)[:40] + " <- " + e6.show(b_, 2)[:70] for a_, b_ in pairs]))
+                # max-pool indices: whenever maxpools[..] is looked at, it is maxpools[j], combined with fmaxs[pass][idx]
+                gm = e6.find_terms(tuple(z.pc) + tuple(z.eff), lambda t: t[0] == "call" and t[1].rsplit("::", 1)[-1] in ("get_mut", "get") and len(t[2]) == 2 and rooted(t[2][0], max_n))
+                mx = [e for e in z.eff if (e[0] == "mut" and e[1] == "tensor::Tensor::extend") or (e[0] == "set" and e[1][0] == "local" and e not in ups and V == "Overwrite")]
+                okmx = all(LIN(e6.strip_upd(g_[2][1])) == J for g_ in gm) and all(operand(e[3][0] if e[0] == "mut" else e[2], fmaxs_n, p_el) for e in mx)
+                note("maxpool-indices:" + V, okmx, "%s: maxpools looked up at %s, combined with %s" % (V, [e6.show(g_[2][1], 2)[:30] for g_ in gm], [e6.show(e[3][0] if e[0] == "mut" else e[2], 2)[:60] for e in mx]))
+        acc = c.adts.get("feedback::Accumulation")
+        for v_ in [x_["name"] for x_ in acc["variants"]]:
+            if v_ not in seen_v:
+                note("operands:" + v_, False, "no accumulation step handles %s" % v_)
+
+    def verdict(key):
+        r_ = res.get(key, [])
+        return bool(r_) and all(x[0] for x in r_), next((x[1] for x in r_ if not x[0]), "")
+    for rule, key, inst, what in (
+            ("R17.1", "guard", "guard-key-is-layer-index", "contains_key(&i)"),
+            ("R17.1", "after-own", "after-own-forward", "the loop block follows the layer's own forward pass"),
+            ("R17.1", "triple", "triple-from-loopbacks[i]", "(into, iterations, inskips) = self.loopbacks[&i]"),
+            ("R17.1", "seed", "starts-from-own-output", "fposts = vec![vec![activated.last().clone()]]"),
+            ("R17.1", "iterations", "iterations-times", "for _ in 0..iterations"),
+            ("R17.1", "current", "current-is-previous-output", "current = previous iteration's last output"),
+            ("R17.1", "reshape", "reshape-to-entry-shape", "if layers[into].inputs() != layers[i].outputs() { current = current.reshape(inputs) }"),
+            ("R17.1", "inskip", "inskip-adds-entry-input", "if inskips { current.add_inplace(&activated[into]) }"),
+            ("R17.1", "rerun", "rerun-range", "_forward(&current, into, i + 1)"),
+            ("R17.1", "records", "records-each-iteration", "push fpre, fpost, fmax"),
+            ("R17.2", "placeholder", "placeholder-removed", "fposts.remove(0) between the iterations and the accumulation"),
+            ("R17.2", "range", "covers-into..=i", "for (idx, j) in (into..i + 1).enumerate()"),
+            ("R17.2", "dispatch", "dispatch-on-loopaccumulation", "match self.loopaccumulation")):
+        ok, why = verdict(key)
+        if key == "guard":
+            ok = ok and n_loop > 0 and n_plain > 0
+        ctx.check(rule, inst, ok, key + ":" + short(why, 90), where, what, "Network::forward: %s" % why)
+    ok_r, _ = verdict("reshape")
+    ok_i, _ = verdict("inskip")
+    ctx.check("R17.1", "iteration-order", ok_r and ok_i, "iteration-statement-order", where, "reshape, then input skip, then re-run")
+    acc = c.adts.get("feedback::Accumulation")
+    for v_ in [x_["name"] for x_ in acc["variants"]]:
+        keys = ["operands:" + v_] + ([] if v_ == "Mean" else ["every-iteration:" + v_, "maxpool-indices:" + v_])
+        for key in keys:
+            ok, why = verdict(key)
+            tag = {"operands": "accumulation-operands", "every-iteration": "iteration-walk", "maxpool-indices": "maxpool-index-bookkeeping"}[key.split(":")[0]]
+            ctx.check("R17.2", key, ok, "%s:%s:%s" % (tag, v_, short(why, 80)), where,
+                      {"operands": "preactivated[j] <- fpres[it][idx]; activated[j+1] <- fposts[it][idx]", "every-iteration": "for iteration in 0..iterations",
+                       "maxpool-indices": "maxpools[j] combined with fmaxs[iteration][idx]"}[key.split(":")[0]], "Network::forward, %s" % why)
 
 
 def r3(ctx):
@@ -371,14 +480,12 @@ def run(ctx):
     from .common import accumulation_setter
     ctx.guard("R17.2", "accumulation-setter", accumulation_setter, ctx, "R17.2")
     ctx.guard("R17.5", "reshape", reshape_helpers, ctx, "R17.5")
-    r = ctx.guard("R17.1", "re-run", r1, ctx)
-    if r:
-        ctx.guard("R17.2", "accumulation", r2, ctx, *r)
+    ctx.guard("R17.1", "re-run", loop_block_e6, ctx)
     ctx.guard("R17.2", "primitives", primitives, ctx, "R17.2")
     ctx.guard("R17.3", "loopback", r3, ctx)
     for l in spatial.LAYERS:
         ctx.guard("R17.4", l, spatial.flat_rechunk, ctx, "R17.4", l)
     ctx.floor("R17.1", 11, "")
-    ctx.floor("R17.2", 3 + 5 + 4 + 4 + 5 + 1, "")
+    ctx.floor("R17.2", 3 + 5 + 4 + 4 + 1 + 1, "range, placeholder, dispatch; operands x5, every-iteration x4, maxpool x4; setter; primitives")
     ctx.floor("R17.3", 5, "key, validation, shape, counts, stored")
     ctx.floor("R17.4", 6, "")
